@@ -20,6 +20,7 @@ input it grades (through groupings), and partial_credit=False must zero everythi
 """
 import itertools
 import random
+from math import gcd as _gcd
 import zlib
 from fractions import Fraction
 
@@ -558,9 +559,6 @@ def level_oracle(node, answers, inputs, observed, formatted, count):
     if len(observed) != n_in or any(e is None for e in observed):
         return 'result has %d entries (some possibly empty) for %d inputs' % (len(observed), n_in)
 
-    def total(rows):
-        return sum(F(e[1]) for r in rows for e in r)
-
     def lay_out(rows):
         """entries of the chosen sub-results at the boxes of the inputs they grade"""
         boxes = [None] * n_in
@@ -571,22 +569,41 @@ def level_oracle(node, answers, inputs, observed, formatted, count):
                 boxes[i] = e
         return boxes
 
-    def assignments(kind, data):
+    # total credit of every sub-result, once, as integers over a common denominator
+    fr = [[[sum(F(e[1]) for e in r) for r in rw] for rw in (data if kind == 'unordered' else [data])]
+          for kind, data in per_list]
+    den = 1
+    for m3 in fr:
+        for rw in m3:
+            for t in rw:
+                den = den * t.denominator // _gcd(den, t.denominator)
+    ints = [[[int(t * den) for t in rw] for rw in m3] for m3 in fr]
+    eps_i = EPS * den
+
+    def assignments(k):
+        kind, data = per_list[k]
+        T = ints[k]
         if kind == 'ordered':
-            yield data
+            yield sum(T[0]), None
         else:
             n = len(data)
-            for p in itertools.permutations(range(n)):
-                yield [data[i][p[i]] for i in range(n)]
+            rng_n = range(n)
+            for p in itertools.permutations(rng_n):
+                yield sum(T[i][p[i]] for i in rng_n), p
 
-    overall = max(total(rows) for kind, data in per_list for rows in assignments(kind, data))
+    def rows_of(k, p):
+        kind, data = per_list[k]
+        return data if p is None else [data[i][p[i]] for i in range(len(data))]
+
+    overall_i = max(t for k in range(len(per_list)) for t, _ in assignments(k))
+    overall = Fraction(overall_i, den)
     # acceptable results before zeroing: an alternative list, a one-to-one assignment, maximal total, right boxes
     in_cands, some_imperfect = False, False
-    for kind, data in per_list:
-        for rows in assignments(kind, data):
-            if total(rows) < overall - EPS:
+    for k in range(len(per_list)):
+        for t, p in assignments(k):
+            if t < overall_i - eps_i:
                 continue
-            lay = lay_out(rows)
+            lay = lay_out(rows_of(k, p))
             if lay is None or any(e is None for e in lay):
                 some_imperfect = True
                 continue
@@ -893,7 +910,7 @@ TRUSTED = [
     'hand-written model coq/Model/ListGrader.v tied to listgrader.py by differential correspondence decided inside Coq '
     '(harness/props/c05.py wraps the item-level subgraders\' check and the top-level perform_check at run time; answer objects are '
     'identified by identity inside the validated configuration)',
-    'solver hypothesis of the unordered theorems (solver_optimal computeQ): discharged for integer costs by C06\'s '
+    'solver hypothesis of the unordered theorems (munkres_partial_correct_statement): discharged for integer costs by C06\'s '
     'munkres_partial_correct; the transfer to rational costs (scale invariance of the solver) is validated by correspondence, not proved',
     'modelled, not verified: the subgraders (an arbitrary oracle in every theorem; the recorded results in the cases), IEEE '
     'rounding of 1 - grade, of the Munkres arithmetic and of numpy\'s row sums (exact-dyadic stream compared by equality, decimal '
